@@ -1,0 +1,36 @@
+//go:build verif
+
+package ecs
+
+// storage.createTable (C10: "naming a removed entity as target ... always panics"; C04): every
+// relation target of a table that gets created or recycled was checked to be the zero entity or
+// alive, before anything is changed. The construction of the table itself (newTable, Recycle,
+// the cache update) is data plane / not under contract and trusted here.
+
+//@ func (*table).Recycle
+//@   serves C04
+//@   trusted
+//@   modifies t.relationIDs, t.isFree, t.columns[*].target
+
+//@ func newTable
+//@   serves C01
+//@   trusted
+//@   modifies nothing
+
+//@ func (*cache).addTable
+//@   serves C05
+//@   trusted
+//@   modifies c.filters[*].tables
+
+//@ spec func targetOK(s *storage, e Entity) bool := e.id == 0 || alive(&s.entityPool, e)
+
+//@ func (*storage).createTable
+//@   serves C10 C04
+//@   maypanic
+//@   requires archetype != nil && archetype.archetypeData != nil && poolInv(&s.entityPool) && len(s.registry.IsRelation) == maskTotalBits
+//@   requires forall k int :: __trigger(relations[k].target) && (0 <= k && k < len(relations) ==> uint64(relations[k].target.id) < uint64(len(s.entityPool.entities)))
+//@   loop 1 invariant fresh: __fresh(targets)
+//@   loop 1 invariant frame: forall q *Entity :: __trigger(q.gen) && __trigger(q.id) && (!__fresh(q) ==> *q == old(*q))
+//@   loop 2 invariant checked: forall k int :: 0 <= k && k < __idx ==> targetOK(s, relations[k].target)
+//@   loop 2 invariant pool: poolInv(&s.entityPool)
+//@   assert   GetFreeTable targets-alive: forall k int :: 0 <= k && k < len(relations) ==> targetOK(s, relations[k].target)
